@@ -890,7 +890,7 @@ func EscapeTagKey(v string) string {
 	if v == "" {
 		return ""
 	}
-	escape := (v[0] < 'a' && v[0] > 'z') && (v[0] < 'A' && v[0] > 'Z') && v[0] != '_' && v[0] != '#' && v[0] != '@'
+	escape := (v[0] < 'a' || v[0] > 'z') && (v[0] < 'A' || v[0] > 'Z') && v[0] != '_' && v[0] != '#' && v[0] != '@'
 	if !escape {
 		for _, r := range v[1:] {
 			if escape = !isValidSymbolRune(r); escape {
@@ -909,7 +909,7 @@ func EscapeTagValue(v string) string {
 	if v == "" {
 		return ""
 	}
-	escape := (v[0] < 'a' && v[0] > 'z') && (v[0] < 'A' && v[0] > 'Z') && v[0] != '_'
+	escape := (v[0] < 'a' || v[0] > 'z') && (v[0] < 'A' || v[0] > 'Z') && v[0] != '_'
 	if !escape {
 		for _, r := range v[1:] {
 			if escape = !isValidSymbolRune(r); escape {
